@@ -46,7 +46,10 @@ PredsOn(cols) ==
             And(<<Cmp("lt", C, Lit(1)), PLit(FALSE)>>), Or(<<Cmp("lt", C, Lit(1)), PLit(TRUE)>>),
             Not(Or(<<PLit(TRUE), Cmp("lt", B, Lit(1))>>)),
             \* the operands of the disjunction / conjunction above as selections of their own
-            Cmp("eq", A, Lit(1)), Cmp("eq", B, Lit(0)), Cmp("gt", A, Lit(0))}
+            Cmp("eq", A, Lit(1)), Cmp("eq", B, Lit(0)), Cmp("gt", A, Lit(0)),
+            \* membership in a DESCENDING non-empty range (members 1, 0), plain, negated and inside an OR
+            In(A, Range(1, -1, -1)), Not(In(B, Range(1, -1, -1))),
+            Or(<<Not(In(A, Range(1, -1, -1))), Cmp("eq", B, Lit(1))>>)}
        : ReqP(p) \subseteq cols}
 
 SortsOn(cols) ==
